@@ -211,7 +211,12 @@ func isUntyped(pkg *Package, typ types.Type) bool {
 }
 
 func toChanType(pkg *Package, t *types.Chan) ast.Expr {
-	return &ast.ChanType{Value: toType(pkg, t.Elem()), Dir: chanDirs[t.Dir()]}
+	value := toType(pkg, t.Elem())
+	if elem, ok := value.(*ast.ChanType); ok && elem.Dir == ast.RECV && t.Dir() == types.SendRecv {
+		// chan (<-chan T): without parentheses the arrow would bind to the outer chan (chan<- chan T)
+		value = &ast.ParenExpr{X: value}
+	}
+	return &ast.ChanType{Value: value, Dir: chanDirs[t.Dir()]}
 }
 
 var (
